@@ -30,6 +30,56 @@ def main(tier):
         it["states_fn"] = c05.trip_states
     fam.replay_witnesses()
     progs, kept = fam.compile(items)
+    # isolation monitor (all paths, static): no callee body - nested callees included - writes a local name that the caller reads or writes
+    from .. import ilfront as IL
+
+    iso_checked = 0
+    for p in progs:
+        try:
+            term = IL.resolve(IL.parse_body(p.rzil))
+            subs = S.subs_for(p.il_sub_defs, p.extra.get("sub_sigs"))
+        except IL.ILSyntaxError:
+            continue
+        def names_and_calls(t):
+            names, writes, calls_ = set(), set(), []
+            for n in IL.walk(t):
+                if isinstance(n, tuple) and n:
+                    if n[0] in ("VARL", "SETL") and n[1][0] == "str":
+                        names.add(n[1][1])
+                        if n[0] == "SETL":
+                            writes.add(n[1][1])
+                    elif n[0].startswith("hex_") and n[0][4:] in subs:
+                        calls_.append(n[0][4:])
+            return names - {"ret_val"}, writes - {"ret_val"}, calls_
+
+        def reach_writes(c, seen):
+            """locals written by callee c and everything it calls"""
+            if c in seen:
+                return set()
+            seen.add(c)
+            _, w, cs = names_and_calls(subs[c].term)
+            for c2 in cs:
+                w |= reach_writes(c2, seen)
+            return w
+
+        # the instruction body against its callees, and every callee body against its own callees
+        frames = [("<caller>", term)] + [(c, subs[c].term) for c in sorted({n[0][4:] for n in IL.walk(term) if isinstance(n, tuple) and n and n[0].startswith("hex_") and n[0][4:] in subs})]
+        done = set()
+        while frames:
+            fname, fterm = frames.pop()
+            if fname in done:
+                continue
+            done.add(fname)
+            names, _, cs = names_and_calls(fterm)
+            for c in cs:
+                iso_checked += 1
+                clash = reach_writes(c, set()) & names
+                if clash:
+                    run.violation(f"callee {c} (or a routine it calls) writes the local(s) {sorted(clash)} that {fname} uses: `{p.src[:100]}`",
+                                  {"kind": "isolation", "frame": fname, "callee": c, "names": sorted(clash), "text": p.src, "subs": p.extra["item"].get("subs", []), "aged": p.extra["item"].get("aged", 0)},
+                                  key="isolation:" + ("tmp" if any(x.startswith("h_tmp") for x in clash) else "local"))
+                if c not in done:
+                    frames.append((c, subs[c].term))
     nst = 40 if tier == "quick" else 160
     calls = [0]
 
@@ -43,7 +93,7 @@ def main(tier):
         "evaluations": fam.stats["evaluations"], "distinct_nontrivial": len(fam.nontrivial),
         "rule": "one case = (caller program with its registered sub-routines, state) with a defined C execution; distinct non-trivial = all compared "
                 "executions agreed and at least one callee body was executed by the IL evaluator",
-        "samples": fam.samples or [{"note": "none"}], "states_per_program": nst, "callee_bodies_executed": calls[0],
+        "samples": fam.samples or [{"note": "none"}], "states_per_program": nst, "callee_bodies_executed": calls[0], "caller_callee_pairs_checked_for_isolation": iso_checked,
         "generated_subroutines": sum(len(it.get("subs", ())) for it in kept), "aged_variants": sorted({it.get("aged", 0) for it in kept}),
     })
     run.assumptions = ["callee bodies are inlined by name in the caller's flat local namespace, pure parameters bound by name (what the plugin's C functions do)",
